@@ -26,8 +26,36 @@ static void verif_AddLineInfo(Boolean InMacro, LongInt LineNum, char* FileName, 
     g_li_calls++; g_li_macro = InMacro; g_li_line = LineNum; g_li_file = FileName; g_li_space = Space; g_li_adr = (unsigned long long)Address; g_li_len = (unsigned long long)Len;
 }
 #define AddLineInfo(a, b, c, d, e, f) verif_AddLineInfo((a), (b), (c), (d), (e), (f))
+#ifdef VERIF_WRLST
+/* listing-line monitor: every "%s\n" written to the listing file is one physical listing line; its length is recorded */
+#include <stdarg.h>
+static int g_ll_lines, g_ll_len[8], g_ll_other; static char g_ll_first[8];
+static int mon_lst_fprintf(FILE* f, char const* fmt, ...) {
+    va_list ap; va_start(ap, fmt);
+    if (f == LstFile && fmt[0] == '%' && fmt[1] == 's' && fmt[2] == '\n' && fmt[3] == 0) {
+        char const* t = va_arg(ap, char const*); int n = 0;
+        while (n < 14 && t[n]) n++;
+        if (g_ll_lines >= 0 && g_ll_lines < 8) { g_ll_len[g_ll_lines] = n; g_ll_first[g_ll_lines] = t[0]; }
+        g_ll_lines++;
+    } else g_ll_other++;
+    va_end(ap);
+    return 1;
+}
+#define fprintf mon_lst_fprintf
+/* memset / memcpy with symbolic lengths: bounded byte loops; every byte access carries CBMC's own bounds / pointer obligation (CBMC's library
+ * models exhaust the memory here) */
+static void* verif_memset8(void* d, int v, size_t n) { size_t i; for (i = 0; i < n && i < 8; i++) ((char*)d)[i] = (char)v; VASSERT(n <= 8, "harness: memset monitor capacity"); return d; }
+static void* verif_memcpy16(void* d, void const* s2, size_t n) { size_t i; for (i = 0; i < n && i < 16; i++) ((char*)d)[i] = ((char const*)s2)[i]; VASSERT(n <= 16, "harness: memcpy monitor capacity"); return d; }
+#define memset(d, v, n) verif_memset8((d), (v), (n))
+#define memcpy(d, s2, n) verif_memcpy16((d), (s2), (n))
+#endif
 #include "contracts/loop_defaults.h"
 #include "asmsub.c" /* the real /repo/asmsub.c */
+#ifdef VERIF_WRLST
+#undef fprintf
+#undef memset
+#undef memcpy
+#endif
 #undef AddChunk
 #undef AddSectionUsage
 #undef AddLineInfo
@@ -141,3 +169,33 @@ void h_ChkNames(void) {
     VREACH("end");
     if (n == 0) VREACH("empty name");
 }
+
+#ifdef VERIF_WRLST
+/* ---- C19 / C03: a listing line wider than the page is written as ceil(width / page width) physical lines that together hold
+ * the line with its tabs expanded to the next multiple of 8, none wider than the page; the expansion buffer is large enough
+ * for any line (it was a fixed 2500-byte array).  Lines of 0..5 characters over { TAB, 'a' }, page widths 4..12. ---- */
+void h_WrLstLine(void) {
+    static char line[8]; static FILE fobj; int n, i, blen = 0, want, sum = 0;
+    VND_BYTES(line, 8); line[5] = 0;
+    for (i = 0; i < 5; i++) { VASSUME(line[i] == '\t' || line[i] == 'a'); if (i >= VERIF_LEN) line[i] = 0; }   /* one group per line length: a buffer of symbolic size exhausted the memory */
+    n = VERIF_LEN;
+    for (i = 0; i < 5; i++) if (i < n) { if (line[i] == '\t') blen += 8 - (blen & 7); else blen++; }
+    ListOn = 1; ListToNull = False; LstFile = &fobj; LstCounter = 0;
+    PageLength = 60;   /* concrete: with a symbolic page length every physical line would also explore NewPage */
+    VND(PageWidth, uchar); VASSUME(PageWidth == 0 || (PageWidth >= 4 && PageWidth <= 12));
+    g_ll_lines = 0; g_ll_other = 0;
+    WrLstLine(line);
+    if (PageLength == 0 || PageWidth == 0 || (n << 3) < (int)PageWidth) want = 1;
+    else { want = blen / PageWidth + ((blen % PageWidth) ? 1 : 0); if (want == 0) want = 0; }
+    if (want == 1 || PageLength == 0) {
+        VPOST(g_ll_lines == 1 && g_ll_len[0] == n, "C19: a listing line that fits the page is written as it is");
+        VREACH("fits");
+    } else {
+        VPOST(g_ll_lines == want, "C19: a listing line wider than the page is split into ceil(expanded width / page width) physical lines");
+        for (i = 0; i < 8; i++) if (i < g_ll_lines) { VPOST(g_ll_len[i] <= (int)PageWidth, "C19: no physical listing line is wider than the page"); sum += g_ll_len[i]; }
+        VPOST(sum == blen, "C19: the physical lines together hold the whole line with its tabs expanded");
+        VREACH("split");
+    }
+    VREACH("end");
+}
+#endif
